@@ -88,7 +88,8 @@ pub open spec fn env_sound(env: DegreeEnvironment, t: Truth) -> bool {
 }
 pub open spec fn truth_ok(t: Truth) -> bool { forall|v: VariableName| 0 <= #[trigger] t(v) <= 3 }
 
-// an Update node whose array has no entry in the environment ("first write" in the code's reading) — the known finding
+// historical: until the repair 7f65523 this predicate singled out Update nodes whose array has no entry in the environment (the
+// code's "first write" reading, a known finding); it is now false for every tree (kept so that the contracts read as before)
 pub open spec fn has_first_write(e: Expression, env: DegreeEnvironment) -> bool
     decreases e
 {
@@ -99,7 +100,7 @@ pub open spec fn has_first_write(e: Expression, env: DegreeEnvironment) -> bool
         Expression::Call { args, .. } => any_first_write(args@, args@.len() as int, env),
         Expression::InlineArray { values, .. } => any_first_write(values@, values@.len() as int, env),
         Expression::Access { access, .. } => any_access_first_write(access@, access@.len() as int, env),
-        Expression::Update { var, access, rhe, .. } => !denv_map(env).dom().contains(var) || has_first_write(*rhe, env) || any_access_first_write(access@, access@.len() as int, env),
+        Expression::Update { var, access, rhe, .. } => has_first_write(*rhe, env) || any_access_first_write(access@, access@.len() as int, env),
         _ => false,
     }
 }
